@@ -40,8 +40,20 @@ impl TerminalDisplay {
 
         let file_path = self.get_relative_path(db, file_id);
         let document = db.get_vfs().get_document(&file_id).unwrap();
-        let text = document.get_text();
-        let text_lines = text.lines().collect::<Vec<&str>>();
+        // Split the text with the document's own line index, so that the line numbers of the
+        // diagnostics (which come from that index) address the right entries.
+        let mut text_lines = (0..document.get_line_count())
+            .map(|line| match document.get_line_range(line) {
+                Some(range) => document
+                    .get_text_slice(range)
+                    .trim_end_matches(['\r', '\n']),
+                None => "",
+            })
+            .collect::<Vec<&str>>();
+        // Like `str::lines`, do not count the empty line after a final line terminator.
+        if text_lines.last().is_some_and(|line| line.is_empty()) {
+            text_lines.pop();
+        }
 
         // Group statistics by severity level
         let mut error_count = 0;
@@ -182,20 +194,8 @@ impl TerminalDisplay {
         // Calculate line and column numbers
         let start_line = range.start.line as usize;
         let start_character = range.start.character as usize;
-        let Some(start_col) = document.get_col_offset_at_line(start_line, start_character) else {
-            return;
-        };
-        let start_col = u32::from(start_col) as usize;
         let end_line = range.end.line as usize;
         let end_character = range.end.character as usize;
-        let Some(end_col) = document.get_col_offset_at_line(end_line, end_character) else {
-            return;
-        };
-        let end_col = u32::from(end_col) as usize;
-
-        if start_line >= lines.len() {
-            return;
-        }
 
         // Print diagnostic header
         if self.supports_color {
@@ -228,6 +228,22 @@ impl TerminalDisplay {
                 start_line + 1,
                 start_character + 1
             );
+        }
+
+        // The diagnostic itself is always reported; the source excerpt only when its position
+        // can be shown (e.g. not for a diagnostic on the empty line after the final newline).
+        let (Some(start_col), Some(end_col)) = (
+            document.get_col_offset_at_line(start_line, start_character),
+            document.get_col_offset_at_line(end_line, end_character),
+        ) else {
+            println!();
+            return;
+        };
+        let start_col = u32::from(start_col) as usize;
+        let end_col = u32::from(end_col) as usize;
+        if start_line >= lines.len() {
+            println!();
+            return;
         }
 
         // Calculate context range to display (one line before and after for context)
